@@ -69,3 +69,25 @@ Proof.
   rewrite opaque_reaches_nothing in H. destruct H as [e He]. exists tr, e. split; assumption.
 Qed.
 Print Assumptions C20_foreign_root_from_text.
+
+(* A value that is not JSON met at depth (ErrSteps.v): a path of name and index steps that reaches such a value and has a further
+   step to take there fails with "type unmatched" naming that step as written — expected object (array for an index step), found the
+   Go type of the value — and never panics. *)
+From JP Require Import KeyDefs ChainParse ErrNames ErrSteps.
+Theorem C20_foreign_value_at_depth_from_text : forall cfg parse_float regex_ok ffun afun regex_match,
+  (forall f v w, small v -> ffun f v = Some w -> small w) ->
+  (forall f l w, Forall small l -> afun f l = Some w -> small w) ->
+  forall pre x post doc ty i s st,
+  forallb step_ok (pre ++ x :: post) = true -> forallb is_loc_step (pre ++ x :: post) = true -> small doc -> ok st ->
+  walk doc pre = Some (VOpaque ty i s) ->
+  exists t b, parse_with cfg parse_float regex_ok jsonpath_grammar (chain_path (map RPlain (pre ++ x :: post))) = ParseOk t /\
+              fst (eval_run ffun afun regex_match t doc st) = OErr (EType b (expected_container x) ty) /\ text b = step_text x.
+Proof. exact foreign_value_step_error. Qed.
+Print Assumptions C20_foreign_value_at_depth_from_text.
+
+(* `$.a[1].b` and `$.a[1][0]` on {"a":[0, <time.Time>]} *)
+Example C20_foreign_at_depth_example :
+  let doc := VObj [("a", VArr [VNum (num_of_Z 0); VOpaque "time.Time" 1 true])]%string in
+  walk doc [SDot [97%N]; SIdx [49%N]] = Some (VOpaque "time.Time" 1 true) /\
+  expected_container (SDot [98%N]) = "object"%string /\ expected_container (SIdx [48%N]) = "array"%string.
+Proof. repeat split; vm_compute; reflexivity. Qed.
